@@ -138,8 +138,12 @@ impl Property for C17 {
     fn generate(&self, seed: u64, run: u64, tier: &str) -> Scenario {
         let mut rng = Rng::new(run_seed(seed, "C17", run));
         let mut sc = Scenario::new("C17", seed, run, tier);
-        let (text, lib) = match rng.below(12) {
-            0..=5 => (gen::corpus_sv(&mut rng, 1400).to_string(), false),
+        // the repo's own snippets are walked systematically (run index -> snippet), so that a thorough batch
+        // covers every one of them several times; the other inputs are drawn
+        let n_corpus = gen::corpus_sv_count();
+        let systematic = gen::corpus_sv_nth((run as usize).wrapping_mul(7919).wrapping_add(seed as usize) % n_corpus.max(1), 1400);
+        let (mut text, lib) = match rng.below(12) {
+            0..=5 => (systematic.map(|s| s.to_string()).unwrap_or_else(|| gen::corpus_sv(&mut rng, 1400).to_string()), false),
             6 | 7 => {
                 let k = 1 + rng.usize_below(4);
                 (gen::sv_program(&mut rng, k), false)
@@ -149,6 +153,10 @@ impl Property for C17 {
             10 => (gen::corpus_lib(&mut rng).to_string(), true),
             _ => (gen::lib_program(&mut rng), true),
         };
+        if !lib && rng.chance(1, 3) {
+            // state-carrying trivia at arbitrary token boundaries: memoised side effects are skipped on a hit
+            text = gen::inject_directives(&mut rng, &text);
+        }
         let api = if lib {
             *rng.pick(&[Api::RawLib, Api::RawLibIncomplete, Api::ParseLibStr])
         } else {
